@@ -5,7 +5,7 @@
    a future's result is what its task returned. *)
 From Coq Require Import ZArith List Bool Permutation Lia.
 Import ListNotations.
-From TD Require Import Model.C12_Chunk Model.C12_Sched Proofs.C12_ChunkP Proofs.C12_SchedP Proofs.C12_AssignP Proofs.C12_InPlaceP.
+From TD Require Import Model.C12_Chunk Model.C12_Sched Model.C12_Map Proofs.C12_ChunkP Proofs.C12_SchedP Proofs.C12_AssignP Proofs.C12_InPlaceP Proofs.C12_MapP.
 Open Scope nat_scope.
 
 (* ================================================================= the partition *)
@@ -115,6 +115,144 @@ Theorem C12_shared_out_order_free : forall (B : Type) n bs (items : list (option
 Proof. intro B. exact (@shared_out_order_free B). Qed.
 Print Assumptions C12_shared_out_order_free.
 
+(* ================================================================= map / map_iter end to end (Model/C12_Map.v) *)
+(* map over ANY dim (negative dims normalised as _maybe_correct_neg_dim does), any chunksize (0: unbind and re-stack), num_chunks,
+   worker count, generator mode, progress bar, with a row-wise function: the result is the function applied to the whole;
+   with out= (regular / shared / memmap) the buffer ends up holding it *)
+Theorem C12_map_full_eq_whole : forall (A B : Type) (g : A -> B) shape rows oshape out p d l,
+  correct_neg_dim (p_dim p) (List.length shape) = Ok d ->
+  List.length rows = nth d shape 0 -> List.length rows > 0 ->
+  split_pieces (List.length rows) (p_cs p) (p_nc p) (p_nw p) (p_gen p) false = Ok l ->
+  map_full (rowfn g) shape rows ONone oshape out p = Ok (RetCat (map g rows)) /\
+  (d < List.length oshape -> nth d oshape 0 = List.length rows -> List.length out = List.length rows ->
+     map_full (rowfn g) shape rows ORegular oshape out p = Ok (RetOut (map g rows)) /\
+     map_full (rowfn g) shape rows OShared oshape out p = Ok (RetNoneOut (map g rows))).
+Proof.
+  intros A B g shape rows oshape out p d l Hd Hn Hpos Hs. split; [eapply map_full_rowwise_cat; eassumption|].
+  intros Hod Hon Hol. split.
+  - apply (map_full_rowwise_out g shape rows ORegular oshape out p d l); try assumption; discriminate.
+  - apply (map_full_rowwise_out g shape rows OShared oshape out p d l); try assumption; discriminate.
+Qed.
+Print Assumptions C12_map_full_eq_whole.
+
+(* ANY function whose results are None or have the batch size of their chunk along dim: out= holds the sequential form
+   (result k at slice k, None leaves the slice as it was), for every dim and chunking parameter *)
+Theorem C12_map_full_out_sequential : forall (A B : Type) (f : bool -> list A -> option (list B)) shape rows kind oshape out p d l,
+  kind <> ONone ->
+  correct_neg_dim (p_dim p) (List.length shape) = Ok d ->
+  List.length rows = nth d shape 0 -> List.length rows > 0 ->
+  d < List.length oshape -> nth d oshape 0 = List.length rows -> List.length out = List.length rows ->
+  split_pieces (List.length rows) (p_cs p) (p_nc p) (p_nw p) (p_gen p) false = Ok l ->
+  (forall q, In q l -> fitsn (bounds (List.length rows) q) (f (is_unbound q) (piece_rows rows q))) ->
+  map_full f shape rows kind oshape out p
+  = Ok (wrap_out kind (seq_out out (map (bounds (List.length rows)) l) (map_items f rows l))).
+Proof. intros A B. exact (@map_full_out_sequential A B). Qed.
+Print Assumptions C12_map_full_out_sequential.
+
+(* ANY function, no out=: the cat along dim of the non-None results in order — results may have another batch size along dim *)
+Theorem C12_map_full_cat_sequential : forall (A B : Type) (f : bool -> list A -> option (list B)) shape rows oshape out p d l,
+  correct_neg_dim (p_dim p) (List.length shape) = Ok d ->
+  List.length rows = nth d shape 0 ->
+  split_pieces (List.length rows) (p_cs p) (p_nc p) (p_nw p) (p_gen p) false = Ok l ->
+  p_cs p <> Some 0 ->
+  map_full f shape rows ONone oshape out p
+  = Ok (match somes (map_items f rows l) with [] => RetNone | r => RetCat (concat r) end).
+Proof. intros A B. exact (@map_full_cat_sequential A B). Qed.
+Print Assumptions C12_map_full_cat_sequential.
+
+(* dim: a negative dim is the same call as its positive form; a dim outside [-rank, rank) is rejected (IndexError) *)
+Theorem C12_map_full_dim : forall (A B : Type) (f : bool -> list A -> option (list B)) shape rows kind oshape out cs nc nw gen pbar,
+  (forall d, d < List.length shape ->
+     map_full f shape rows kind oshape out
+       {| p_dim := Z.of_nat d - Z.of_nat (List.length shape); p_cs := cs; p_nc := nc; p_nw := nw; p_gen := gen; p_pbar := pbar |}
+     = map_full f shape rows kind oshape out
+       {| p_dim := Z.of_nat d; p_cs := cs; p_nc := nc; p_nw := nw; p_gen := gen; p_pbar := pbar |}) /\
+  (forall dim, (dim < - Z.of_nat (List.length shape) \/ Z.of_nat (List.length shape) <= dim)%Z ->
+     map_full f shape rows kind oshape out
+       {| p_dim := dim; p_cs := cs; p_nc := nc; p_nw := nw; p_gen := gen; p_pbar := pbar |} = Raised EIndex).
+Proof.
+  intros. split.
+  - intros d Hd. now apply map_full_neg_dim.
+  - intros dim Hd. now apply map_full_bad_dim.
+Qed.
+Print Assumptions C12_map_full_dim.
+
+(* an EMPTY mapped dim (n = 0), as the code behaves: num_chunks / default mode raises (ValueError from chunk(0), or
+   ZeroDivisionError from the generator), chunksize == 0 returns None, chunksize >= 1 calls the function once on the empty
+   tensordict without the generator and not at all with it — the generator and non-generator modes agree only for n > 0 *)
+Theorem C12_map_full_empty_dim : forall (A B : Type) (f : bool -> list A -> option (list B)) shape oshape out p d,
+  correct_neg_dim (p_dim p) (List.length shape) = Ok d -> nth d shape 0 = 0 ->
+  map_full f shape [] ONone oshape out p =
+  match p_cs p, p_nc p with
+  | Some _, Some _ => Raised EValue
+  | Some 0, None => Ok RetNone
+  | Some (S _), None => if p_gen p then Ok RetNone
+                        else Ok (match f false [] with None => RetNone | Some r => RetCat (concat [r]) end)
+  | None, _ => if p_gen p then Raised EZeroDiv else Raised EValue
+  end.
+Proof. intros A B. exact (@map_full_empty_dim A B). Qed.
+Print Assumptions C12_map_full_empty_dim.
+
+(* the progress bar changes nothing, and is told the number of chunks (nothing with the generator) *)
+Theorem C12_map_full_pbar : forall (A B : Type) (f : bool -> list A -> option (list B)) shape rows kind oshape out p,
+  map_full f shape rows kind oshape out p
+  = map_full f shape rows kind oshape out
+      {| p_dim := p_dim p; p_cs := p_cs p; p_nc := p_nc p; p_nw := p_nw p; p_gen := p_gen p; p_pbar := negb (p_pbar p) |}
+  /\ (forall d l, correct_neg_dim (p_dim p) (List.length shape) = Ok d ->
+       split_pieces (nth d shape 0) (p_cs p) (p_nc p) (p_nw p) (p_gen p) false = Ok l ->
+       map_pbar_total shape p = Ok (if p_pbar p then Some (if p_gen p then None else Some (List.length l)) else None)).
+Proof.
+  intros. split; [apply map_full_pbar_transparent|]. intros d l. apply pbar_total_num_chunks.
+Qed.
+Print Assumptions C12_map_full_pbar.
+
+(* map_iter without shuffle yields exactly the results of the chunks, in order (None results included); the chunks tile
+   the mapped dim; with a row-wise function the concatenation of what is yielded is the function applied to the whole *)
+Theorem C12_map_iter_in_order : forall (A B : Type) (f : bool -> list A -> option (list B)) shape rows p d l rp pi,
+  correct_neg_dim (p_dim p) (List.length shape) = Ok d ->
+  List.length rows = nth d shape 0 -> List.length rows > 0 ->
+  split_pieces (List.length rows) (p_cs p) (p_nc p) (p_nw p) (p_gen p) false = Ok l ->
+  map_iter_full f shape rows p false rp pi
+  = Ok (map (fun q => f (is_unbound q) (take rows (bounds (List.length rows) q))) l)
+  /\ tiles 0 (List.length rows) (map (bounds (List.length rows)) l).
+Proof. intros A B. exact (@map_iter_in_order A B). Qed.
+Print Assumptions C12_map_iter_in_order.
+
+Theorem C12_map_iter_rowwise : forall (A B : Type) (g : A -> B) shape rows p d l rp pi yielded,
+  correct_neg_dim (p_dim p) (List.length shape) = Ok d ->
+  List.length rows = nth d shape 0 -> List.length rows > 0 ->
+  split_pieces (List.length rows) (p_cs p) (p_nc p) (p_nw p) (p_gen p) false = Ok l ->
+  map_iter_full (rowfn g) shape rows p false rp pi = Ok yielded ->
+  concat (somes yielded) = map g rows.
+Proof. intros A B. exact (@map_iter_rowwise A B). Qed.
+Print Assumptions C12_map_iter_rowwise.
+
+(* shuffle=True: for EVERY random permutation rp of the rows and EVERY completion order pi of the pool, what is yielded is a
+   permutation of the results of the shuffled chunks, and (row-wise function) its rows are a permutation of the function
+   applied to the whole: every row exactly once *)
+Theorem C12_map_iter_shuffle : forall (A B : Type) (f : bool -> list A -> option (list B)) shape rows p d l rp pi,
+  correct_neg_dim (p_dim p) (List.length shape) = Ok d ->
+  List.length rows = nth d shape 0 ->
+  split_pieces (List.length rows) (p_cs p) (p_nc p) (p_nw p) (p_gen p) true = Ok l ->
+  Permutation pi (seq 0 (List.length l)) ->
+  exists yielded,
+    map_iter_full f shape rows p true rp pi = Ok yielded /\
+    Permutation yielded (map (fun q => f (is_unbound q) (select_by rows (take rp (bounds (List.length rp) q)))) l).
+Proof. intros A B. exact (@map_iter_shuffle_items A B). Qed.
+Print Assumptions C12_map_iter_shuffle.
+
+Theorem C12_map_iter_shuffle_rowwise : forall (A B : Type) (g : A -> B) shape rows p d l rp pi,
+  correct_neg_dim (p_dim p) (List.length shape) = Ok d ->
+  List.length rows = nth d shape 0 -> List.length rows > 0 ->
+  Permutation rp (seq 0 (List.length rows)) ->
+  split_pieces (List.length rows) (p_cs p) (p_nc p) (p_nw p) (p_gen p) true = Ok l ->
+  Permutation pi (seq 0 (List.length l)) ->
+  exists yielded,
+    map_iter_full (rowfn g) shape rows p true rp pi = Ok yielded /\
+    Permutation (concat (somes yielded)) (map g rows).
+Proof. intros A B. exact (@map_iter_shuffle_rowwise A B). Qed.
+Print Assumptions C12_map_iter_shuffle_rowwise.
+
 (* ================================================================= thread pools *)
 (* for EVERY option combination (also the defective ones) the result of the multithreaded apply does not depend on the
    completion order of the tasks *)
@@ -188,6 +326,34 @@ Example C12_ex_reassembly :
   /\ seq_out [0; 0; 0; 0; 0]%Z [(0, 2); (2, 4); (4, 5)] [None; Some [3; 4]%Z; Some [5]%Z] = [0; 0; 3; 4; 5]%Z
   /\ tiles 0 5 [(0, 2); (2, 4); (4, 5)].
 Proof. split; [reflexivity|]. split; [reflexivity|]. cbn. repeat split; auto with arith. Qed.
+
+(* map over dim -1 of a [2, 7] batch, chunksize 3 with the generator and a progress bar, out= shared; chunksize 0; a result with
+   a single row is BROADCAST over its chunk by update_; the empty dim with and without the generator *)
+Example C12_ex_map_full :
+  let p := {| p_dim := (-1)%Z; p_cs := Some 3; p_nc := None; p_nw := 2; p_gen := true; p_pbar := true |} in
+  let p0 := {| p_dim := 1%Z; p_cs := Some 0; p_nc := None; p_nw := 2; p_gen := false; p_pbar := false |} in
+  let rows := [10; 11; 12; 13; 14; 15; 16]%Z in
+  correct_neg_dim (p_dim p) 2 = Ok 1 /\ List.length rows = nth 1 [2; 7] 0 /\
+  split_pieces 7 (p_cs p) (p_nc p) (p_nw p) (p_gen p) false = Ok [PSl 0 3; PSl 3 6; PSl 6 9] /\
+  map_full (rowfn Z.succ) [2; 7] rows OShared [2; 7] (repeat 0%Z 7) p = Ok (RetNoneOut [11; 12; 13; 14; 15; 16; 17]%Z) /\
+  map_full (rowfn Z.succ) [2; 7] rows ONone [] [] p0 = Ok (RetCat [11; 12; 13; 14; 15; 16; 17]%Z) /\
+  map_full (fun _ r => Some (firstn 1 r)) [2; 7] rows ORegular [2; 7] (repeat 0%Z 7) p
+    = Ok (RetOut [10; 10; 10; 13; 13; 13; 16]%Z) /\
+  map_full (fun _ r => Some (r ++ r)) [2; 7] rows ONone [] [] p
+    = Ok (RetCat [10; 11; 12; 10; 11; 12; 13; 14; 15; 13; 14; 15; 16; 16]%Z) /\
+  map_full (rowfn Z.succ) [2; 0] [] ONone [] [] {| p_dim := 1%Z; p_cs := Some 3; p_nc := None; p_nw := 2; p_gen := false; p_pbar := false |}
+    = Ok (RetCat []) /\
+  map_full (rowfn Z.succ) [2; 0] [] ONone [] [] {| p_dim := 1%Z; p_cs := Some 3; p_nc := None; p_nw := 2; p_gen := true; p_pbar := false |}
+    = Ok RetNone /\
+  map_iter_full (rowfn Z.succ) [2; 7] rows p true [3; 1; 4; 0; 6; 5; 2] [2; 0; 1]
+    = Ok [Some [13]; Some [14; 12; 15]; Some [11; 17; 16]]%Z /\
+  Permutation [2; 0; 1] (seq 0 3) /\ Permutation [3; 1; 4; 0; 6; 5; 2] (seq 0 7).
+Proof.
+  cbn zeta. repeat split; try (vm_compute; reflexivity).
+  - apply (perm_trans (l' := [0; 2; 1])); [apply perm_swap|apply perm_skip, perm_swap].
+  - apply NoDup_Permutation; [repeat constructor; cbn; intuition lia|apply seq_NoDup|].
+    intro x. rewrite in_seq. cbn. lia.
+Qed.
 
 From Coq Require Import String.
 Open Scope string_scope.
